@@ -97,6 +97,7 @@ class Session:
         self.pool = joker.pool
         self.joker = joker
         self.workdir = None
+        self.fast_reference = True
         collab.install_helper_factory(joker, self.rec)
         self.events = []
         self.file = None
@@ -111,6 +112,12 @@ class Session:
         from thejoker.src.fast_likelihood import CJokerHelper
         out = np.empty(self.lib.N)
         all_data, ids, M = validate_prepare_data(self.data, self.prior.poly_trend, self.prior.n_offsets)
+        if getattr(self, "fast_reference", False):
+            # adopted sessions (the repository's tests use libraries of thousands of rows): one fresh helper, blocks of 256 rows
+            h = CJokerHelper(all_data, self.prior, M)
+            for lo in range(0, self.lib.N, 256):
+                out[lo:lo + 256] = np.array(h.batch_marginal_ln_likelihood(np.ascontiguousarray(self.lib.packed[lo:lo + 256])))
+            return out
         for i in range(self.lib.N):
             h = CJokerHelper(all_data, self.prior, M)
             out[i] = np.array(h.batch_marginal_ln_likelihood(np.ascontiguousarray(self.lib.packed[i:i + 1])))[0]
